@@ -324,6 +324,27 @@ func (c *Check) filterRulesMode(prefix string, totalOnly bool) {
 	neutral := "(ok " + prCall + ")"
 	nAppend := 0
 	var problems, totalProblems []string
+	// the pricing routine can fail (no exchange rate for the price's denomination) and its failure aborts the whole selection:
+	// it is asked only about bindings already known to be found, available and fast enough — a provider that the response-time
+	// test would have dropped must not be able to block the batch of the others
+	for _, pa := range c.P.PathsOf(f) {
+		for i, ev := range pa.Events {
+			if ev.Kind != EvCall || ev.CI.fn != u.PR || ev.Loop == nil {
+				continue
+			}
+			got := map[string]bool{}
+			for _, fa := range pa.Events[:i] {
+				if fa.Kind == EvFact && fa.Loop == ev.Loop {
+					got[fa.Fact.String()] = true
+				}
+			}
+			for k := range expect {
+				if !strings.Contains(k, prCall) && !got[k] {
+					problems = append(problems, "the price is computed before the binding is known to be eligible (missing: "+shortTerm(parseTerm(k))+"): a pricing failure of a provider that would be filtered out aborts the selection")
+				}
+			}
+		}
+	}
 	for _, pa := range c.P.PathsOf(f) {
 		for i, ev := range pa.Events {
 			if ev.Kind != EvAssign || ev.Val == nil || ev.Val.Op != "append" || len(ev.Val.A) != 2 || ev.Loop == nil {
